@@ -245,17 +245,15 @@ impl<'a> Run<'a> {
         let definite = up_ok == lo_ok;
         if sut_ok && !up_ok {
             let sig = self.classify_allow(op, r, s, need);
-            ctx.fail(
-                sig,
-                format!(
-                    "{}: the product ALLOWED {op} by {} on {:?} but the model finds no live grant of level {} (upper bound {})",
-                    self.step,
-                    self.pname(r),
-                    s.map(|s| self.sname(s)),
-                    lname(need),
-                    s.map(|s| lname(self.m.perm_up(r, s).level)).unwrap_or("-"),
-                ),
-            )?;
+            let msg = format!(
+                "{}: the product ALLOWED {op} by {} on {:?} but the model finds no live grant of level {} (upper bound {})",
+                self.step,
+                self.pname(r),
+                s.map(|s| self.sname(s)),
+                lname(need),
+                s.map(|s| lname(self.m.perm_up(r, s).level)).unwrap_or("-"),
+            );
+            self.fail_all(ctx, sig, msg)?;
             ctx.label(format!("{op}:known-allow"));
             return Ok(true);
         }
@@ -370,34 +368,64 @@ impl<'a> Run<'a> {
         best
     }
 
-    fn classify_allow(&self, op: &str, r: usize, s: Option<usize>, need: u8) -> String {
-        let Some(s) = s else { return format!("allow-without-grant:{op}") };
+    /// Signature(s) for "the product allowed what the model denies". One signature when a single
+    /// hypothesis explains the decision; when only a combination of separately recorded defects
+    /// explains it (e.g. an expired grant reached over a MEMBER-prefixed edge) every constituent is
+    /// returned and each must be a known finding for the case to continue.
+    fn classify_allow(&self, op: &str, r: usize, s: Option<usize>, need: u8) -> Vec<String> {
+        let Some(s) = s else { return vec![format!("allow-without-grant:{op}")] };
         if !self.m.secrets[s].exists {
-            return format!("allow-on-missing-secret:{op}");
+            return vec![format!("allow-on-missing-secret:{op}")];
         }
-        let tests: [(Extra, &str); 5] = [
-            (Extra::Stale, "expired-grant-honoured"),
-            (Extra::Orphans, "delegated-grant-survives-revoke_delegation"),
-            (Extra::MemberPrefixed, "allow-via-nonlisted-edge:member-prefixed-type"),
-            (Extra::EdgeToSecret, "non-access-edge-to-secret-confers"),
-            (Extra::AnyEdge, "allow-via-nonlisted-edge"),
-        ];
-        for (x, name) in tests {
+        let name_of = |x: Extra| -> String {
+            if x == Extra::Stale {
+                // get/list are the documented reaping points and must never honour an expired grant;
+                // every other operation is one class
+                if op == "get" || op == "list" {
+                    format!("expired-grant-honoured:{op}")
+                } else {
+                    "expired-grant-honoured:until-next-read".to_string()
+                }
+            } else if x == Extra::Orphans {
+                "delegated-grant-survives-revoke_delegation".to_string()
+            } else if x == Extra::MemberPrefixed {
+                "allow-via-nonlisted-edge:member-prefixed-type".to_string()
+            } else if x == Extra::EdgeToSecret {
+                format!("non-access-edge-to-secret-confers:{op}")
+            } else {
+                format!("allow-via-nonlisted-edge:{op}")
+            }
+        };
+        let singles = [Extra::Stale, Extra::Orphans, Extra::MemberPrefixed, Extra::EdgeToSecret, Extra::AnyEdge];
+        for x in singles {
             if self.m.perm_extra(r, s, x, OTHER_EDGE_TYPES).level >= need {
-                if x == Extra::MemberPrefixed || x == Extra::Orphans {
-                    // one defect whatever the operation: the edge type decides
-                    return name.to_string();
-                }
-                if x == Extra::Stale && op != "get" && op != "list" {
-                    // get/list are the documented reaping points and must never honour an expired
-                    // grant; every other operation is one class
-                    return format!("{name}:until-next-read");
-                }
-                return format!("{name}:{op}");
+                return vec![name_of(x)];
             }
         }
+        // combinations, smallest first
+        let n = singles.len();
+        for size in 2..=n {
+            for mask in 1u32..(1 << n) {
+                if mask.count_ones() as usize != size {
+                    continue;
+                }
+                let mut x = Extra::None;
+                for (i, e) in singles.iter().enumerate() {
+                    if mask & (1 << i) != 0 {
+                        x = x.with(*e);
+                    }
+                }
+                if self.m.perm_extra(r, s, x, OTHER_EDGE_TYPES).level >= need {
+                    return singles.iter().enumerate().filter(|(i, _)| mask & (1 << i) != 0).map(|(_, e)| name_of(*e)).collect();
+                }
+            }
+        }
+        if self.with_expired_allows(r, s, need) {
+            // the grant that would explain it expired and was (per the model) already reaped
+            return vec![format!("expired-grant-honoured:{op}")];
+        }
         let up = self.m.perm_up(r, s).level;
-        if up == 0 {
+        vec![if up == 0 {
             if self.m.has_membership(r) {
                 format!("allow-without-grant:membership-only:{op}")
             } else {
@@ -405,7 +433,16 @@ impl<'a> Run<'a> {
             }
         } else {
             format!("allow-above-level:{}-needs-{}:{op}", lname(up), lname(need))
+        }]
+    }
+
+    fn fail_all(&self, ctx: &mut CaseCtx, sigs: Vec<String>, msg: String) -> Result<(), Fail> {
+        let combined = sigs.len() > 1;
+        for sig in sigs {
+            let m = if combined { format!("{msg} [needs a combination of defects; this constituent: {sig}]") } else { msg.clone() };
+            ctx.fail(sig, m)?;
         }
+        Ok(())
     }
 
     /// Root reads the current version back without touching the TTL reaper (get_version).
@@ -670,10 +707,8 @@ impl<'a> Run<'a> {
                         let up_t = self.m.perm_up(t, s).level;
                         if now_t > up_t {
                             let sig = self.classify_allow("probe-after-revoke", t, Some(s), now_t);
-                            ctx.fail(
-                                sig,
-                                format!("{}: after revoke({rq}, {tn}, {name:?}) the product still reports {} (model upper bound {})", self.step, lname(now_t), lname(up_t)),
-                            )?;
+                            let msg = format!("{}: after revoke({rq}, {tn}, {name:?}) the product still reports {} (model upper bound {})", self.step, lname(now_t), lname(up_t));
+                            self.fail_all(ctx, sig, msg)?;
                         } else if had > up_t {
                             ctx.label("revoke:took-level-away");
                         }
@@ -726,10 +761,8 @@ impl<'a> Run<'a> {
                             let up_c = self.m.perm_up(ch, s).level;
                             if now_c > up_c {
                                 let sig = self.classify_allow("probe-after-revoke_delegation", ch, Some(s), now_c);
-                                ctx.fail(
-                                    sig,
-                                    format!("{}: after revoke_delegation({pn}, {cn}) the child still has {} on {name:?} (model upper bound {})", self.step, lname(now_c), lname(up_c)),
-                                )?;
+                                let msg = format!("{}: after revoke_delegation({pn}, {cn}) the child still has {} on {name:?} (model upper bound {})", self.step, lname(now_c), lname(up_c));
+                                self.fail_all(ctx, sig, msg)?;
                             }
                         }
                     }
@@ -787,7 +820,7 @@ impl<'a> Run<'a> {
                         }
                         self.add_edge(ctx, f, Some(t), None, OTHER_EDGE_TYPES[tyi])?;
                         *self.m.other_pp.entry((f, t, tyi as u8)).or_insert(0) += 1;
-                        ctx.label(format!("edge:other:{}", OTHER_EDGE_TYPES[tyi]));
+                        ctx.label(if OTHER_EDGE_TYPES[tyi].starts_with("MEMBER") { "edge:principal:MEMBER-prefixed-type" } else { "edge:principal:non-listed-type" });
                     },
                     Tgt::Sec(si) => {
                         let s = self.s(*si);
@@ -797,7 +830,7 @@ impl<'a> Run<'a> {
                         }
                         self.add_edge(ctx, f, None, Some(s), OTHER_EDGE_TYPES[tyi])?;
                         *self.m.other_ps.entry((f, s, tyi as u8)).or_insert(0) += 1;
-                        ctx.label(format!("edge:to-secret:{}", OTHER_EDGE_TYPES[tyi]));
+                        ctx.label(if tyi == 0 { "edge:to-secret:MEMBER" } else { "edge:to-secret:other-type" });
                     },
                 }
                 Ok(())
@@ -862,10 +895,8 @@ impl<'a> Run<'a> {
         let lo = self.m.perm_lo(r, s);
         if got > up.level {
             let sig = self.classify_allow(op, r, Some(s), got);
-            ctx.fail(
-                sig,
-                format!("{}: get_permission({}, {name:?}) = {} but the model's upper bound is {}", self.step, self.pname(r), lname(got), lname(up.level)),
-            )?;
+            let msg = format!("{}: get_permission({}, {name:?}) = {} but the model's upper bound is {}", self.step, self.pname(r), lname(got), lname(up.level));
+            self.fail_all(ctx, sig, msg)?;
             ctx.label(format!("{op}:known-allow"));
         } else if got < lo.level {
             ctx.fail(
@@ -937,8 +968,9 @@ impl<'a> Run<'a> {
             let lo_ok = m && self.m.perm_lo(r, s).level >= READ;
             let has = got_set.contains(&name);
             if has && !up_ok {
-                let sig = if m { self.classify_allow("list", r, Some(s), READ) } else { "list:returned-non-matching-or-missing".to_string() };
-                ctx.fail(sig, format!("{}: list({}, {pattern:?}) shows {name:?} without a live grant", self.step, self.pname(r)))?;
+                let sig = if m { self.classify_allow("list", r, Some(s), READ) } else { vec!["list:returned-non-matching-or-missing".to_string()] };
+                let msg = format!("{}: list({}, {pattern:?}) shows {name:?} without a live grant", self.step, self.pname(r));
+                self.fail_all(ctx, sig, msg)?;
             } else if !has && lo_ok {
                 ctx.fail("deny-despite-grant:list", format!("{}: list({}, {pattern:?}) hides {name:?} despite a live grant", self.step, self.pname(r)))?;
             } else if up_ok != lo_ok {
@@ -1042,7 +1074,8 @@ impl<'a> Run<'a> {
                 let up_c = self.m.perm_up(ch, s).level;
                 if now_c > up_c && self.m.perm_extra(ch, s, Extra::Stale, OTHER_EDGE_TYPES).level < now_c {
                     let sig = self.classify_allow("probe-after-delegate", ch, Some(s), now_c);
-                    ctx.fail(sig, format!("{}: after delegate({pn} -> {cn}, {}) the child has {} on {name:?}; ceiling per model {}", self.step, lname(level), lname(now_c), lname(up_c)))?;
+                    let msg = format!("{}: after delegate({pn} -> {cn}, {}) the child has {} on {name:?}; ceiling per model {}", self.step, lname(level), lname(now_c), lname(up_c));
+                    self.fail_all(ctx, sig, msg)?;
                 }
             }
         }
@@ -1073,7 +1106,11 @@ impl<'a> Run<'a> {
         let mut keys = self.store.scan("");
         keys.sort();
         for key in &keys {
-            let class = key.split(':').next().unwrap_or("").to_string();
+            // key class = the (static) key prefix; never let generated text into a signature
+            let mut class: String = key.split(':').next().unwrap_or("").chars().filter(|c| c.is_ascii_alphanumeric() || *c == '_').take(24).collect();
+            if self.scanner.scan(class.as_bytes(), None).is_some() || class.is_empty() {
+                class = "other-key".to_string();
+            }
             for h in self.scanner.scan_all(key.as_bytes()) {
                 located.insert((h.marker, h.kind == Kind::Value));
                 found.insert((
